@@ -220,6 +220,8 @@ CORPUS = [
     ([[1], [1], [1]], True, "dense", "one-bin chromosomes"),
     ([[2, 2, 2, 2, 2, 2, 2]], True, "firstrow", "single populated row"),
     ([[2, 2, 2, 2, 2, 2, 1]], True, "lastrow", "only the last row / column"),
+    ([[1] * 7, [1] * 3], True, "dense", "bin size 1 (start+1 hits a multiple of the new bin size)"),
+    ([[1000] * 4 + [17], [1000, 1]], False, "dense", "large fixed bins, square"),
 ]
 
 
